@@ -249,6 +249,14 @@ def jump_models():
     return {
         'global labels: used, unknown target, redefinition, unused': {'statements': [
             L('A'), J('A'), J('B', V('x')), L('A'), L('C'), E({'number': 1.0}, 'x'), {'return': {'expr': V('x')}}]},
+        'labels spelled like the parser\'s generated ones (hand-written or damaged models): unknown target, redefinition, unused - globally and in a function': {'statements': [
+            L('__bareScriptLoop0'), J('__bareScriptLoop0', V('x')), J('__bareScriptDone0'), L('__bareScriptLoop0'), L('__bareScriptIf7'), E({'number': 1.0}, 'x'),
+            FN('h', ['n'], [J('__bareScriptDone3', V('n')), L('__bareScriptLoop2'), L('__bareScriptLoop2'), J('__bareScriptLoop2'), L('__bareScriptEnd9'), {'return': {'expr': V('n')}}]),
+            E(CALL('h', V('x')))]},
+        'bare call statements of library-named functions with constant arguments (a script may bind such a name to a function with effects): calls are never pointless': {'statements': [
+            FN('stringUpper', ['s'], [E(CALL('systemLog', V('s'))), E(CALL('stringTrim', {'string': ' a '})), E(CALL('arrayLength', {'number': 1.0})), {'return': {'expr': V('s')}}]),
+            E(CALL('stringUpper', {'string': 'x'})), E(CALL('stringLength', {'string': 'abc'})), E(CALL('mathAbs', {'number': 2.0})), E(CALL('objectNew')),
+            E(CALL('stringNew', {'binary': {'op': '+', 'left': {'number': 1.0}, 'right': {'number': 2.0}}}))]},
         'function scope: labels, duplicate / unused arguments, unused variable, redefined function': {'statements': [
             L('G'), J('G'),
             FN('f', ['a', 'a', 'b'], [L('L'), J('L'), J('M'), L('L'), L('U'), E({'number': 1.0}, 'x'), E(CALL('g', V('a')))]),
